@@ -118,8 +118,16 @@ def analyse_branch(body, out_name):
     """-> dict(lead, degree, n_out, has_sign, problems)"""
     terms = []
     for st in body:
-        if isinstance(st, ast.Assign) and len(st.targets) == 1 and isinstance(st.targets[0], ast.Name):
+        if isinstance(st, ast.Assign) and len(st.targets) == 1 and isinstance(st.targets[0], ast.Name) and not (
+                isinstance(st.value, ast.BinOp) and isinstance(st.value.op, ast.Add) and
+                ntext(st.value.left) == ntext(st.targets[0]) and isinstance(st.value.right, ast.List)):
             terms += add_terms(st.value)
+        elif isinstance(st, ast.Return) and st.value is not None and not isinstance(st.value, ast.Name):
+            terms += add_terms(st.value)                   # the branch returns its value directly
+        elif isinstance(st, ast.Assign) and len(st.targets) == 1 and isinstance(st.value, ast.BinOp) and \
+                isinstance(st.value.op, ast.Add) and ntext(st.value.left) == ntext(st.targets[0]) and \
+                isinstance(st.value.right, ast.List) and len(st.value.right.elts) == 1:
+            terms += add_terms(st.value.right.elts[0])     # out = out + [e]  ==  out.append(e)
         elif isinstance(st, ast.AugAssign) and isinstance(st.op, ast.Add) and isinstance(st.value, ast.List) and \
                 len(st.value.elts) == 1:
             terms += add_terms(st.value.elts[0])          # out += [e]  ==  out.append(e)
